@@ -5,6 +5,7 @@ import (
 	"encoding/binary"
 	"fmt"
 	"math/big"
+	"strings"
 
 	"google.golang.org/protobuf/proto"
 	"perun.network/go-perun/channel"
@@ -36,7 +37,7 @@ const (
 
 type limitCase struct {
 	Name   string // unique: "<container>.<path>=<limit>@limit[+1]"
-	Site   string // "<container>.<path>": the site of the signature
+	Site   string // "<structure>.<limit>": the site of the signature (the container is in the detail)
 	Kind   string
 	Limit  string
 	Expect string
@@ -45,7 +46,7 @@ type limitCase struct {
 
 func (lc *limitCase) build() *testCase {
 	c := &testCase{Seed: "limit/" + lc.Name, Kind: lc.Kind, Family: "limit", Expect: lc.Expect, Limit: lc.Site, Site: "limit:" + lc.Site, Changed: true,
-		Mut: mutation{Op: "limit", Note: lc.Limit + " " + lc.Expect}}
+		Mut: mutation{Op: "limit", Note: lc.Name + " must " + lc.Expect}}
 	func() {
 		defer func() {
 			if r := recover(); r != nil {
@@ -263,7 +264,7 @@ func proposalWith(init *channel.Allocation, fa channel.Balances, peers []map[wal
 }
 
 func fundingWith(p *channel.Params, st *channel.State) *client.VirtualChannelFundingProposalMsg {
-	upd := stateWith(allocDim{assets: 1, parts: 2}.real())
+	upd := stateWith(allocDim{assets: 2, parts: 3}.real()) // differs from every allocation that is spliced
 	upd.ID = cat.ID32("limit/parent")
 	return &client.VirtualChannelFundingProposalMsg{
 		ChannelUpdateMsg: client.ChannelUpdateMsg{ChannelUpdate: client.ChannelUpdate{State: upd, ActorIdx: 1}, Sig: cat.Sig("limit/upd")},
@@ -455,12 +456,13 @@ func pbAllocCase(ct container, d allocDim, within bool) ([]byte, int, error) {
 // limitCases is the fixed list of family (4).
 func limitCases() []limitCase {
 	var out []limitCase
-	add := func(site, suffix, kind, limit, expect string, mk func() ([]byte, int, error)) {
-		out = append(out, limitCase{Name: site + "=" + limit + suffix, Site: site, Kind: kind, Limit: limit, Expect: expect, mk: mk})
+	add := func(path, suffix, kind, site, expect string, mk func() ([]byte, int, error)) {
+		out = append(out, limitCase{Name: path + suffix, Site: site, Kind: kind, Limit: site, Expect: expect, mk: mk})
 	}
-	pair := func(site, kind, limit string, at, over func() ([]byte, int, error)) {
-		add(site, "@limit", kind, limit, "accept", at)
-		add(site, "@limit+1", kind, limit, "reject", over)
+	// path: where the structure sits (unique name); site: "<structure>.<limit>"
+	pair := func(path, kind, site string, at, over func() ([]byte, int, error)) {
+		add(path, "@limit", kind, site, "accept", at)
+		add(path, "@limit+1", kind, site, "reject", over)
 	}
 
 	// allocations inside every container, native and protobuf
@@ -482,7 +484,7 @@ func limitCases() []limitCase {
 				if ser == cat.Protobuf {
 					f = pbAllocCase
 				}
-				pair(ct.name+"."+dm.limit, ct.kind, dm.limit,
+				pair(ct.name+"."+dm.limit, ct.kind, "Allocation."+dm.limit,
 					func() ([]byte, int, error) { return f(ct, dm.at, true) },
 					func() ([]byte, int, error) { return f(ct, dm.over, false) })
 			}
@@ -501,7 +503,8 @@ func limitCases() []limitCase {
 	}
 	for _, dm := range balDims {
 		dm := dm
-		pair("Balances."+dm.limit, "value:channel.Balances", dm.limit,
+		bsite := "Balances." + strings.TrimSuffix(dm.limit, "-255")
+		pair("Balances."+dm.limit, "value:channel.Balances", bsite,
 			func() ([]byte, int, error) {
 				r, err := encodeNative(dm.at.realBalances())
 				if err == nil && !bytes.Equal(r, hand(dm.at.handBalances)) {
@@ -519,7 +522,7 @@ func limitCases() []limitCase {
 		smallFA := channel.Balances{{big.NewInt(7), big.NewInt(9)}}
 		smallFAEnc := hand(func(e *enc) { e.u16(1); e.u16(2); e.bigint([]byte{7}); e.bigint([]byte{9}) })
 		init := allocDim{assets: 1, parts: 2}
-		pair("LedgerChannelProposalMsg.funding_agreement."+dm.limit, "native-envelope", dm.limit,
+		pair("LedgerChannelProposalMsg.funding_agreement."+dm.limit, "native-envelope", bsite,
 			func() ([]byte, int, error) {
 				r, err := encodeEnv(cat.Native, proposalWith(init.real(), dm.at.realBalances(), realPeers(2)))
 				return r, 0, err
@@ -538,7 +541,7 @@ func limitCases() []limitCase {
 				}
 				return splice(small, smallFAEnc, hand(dm.over.handBalances))
 			})
-		pair("LedgerChannelProposalMsg.funding_agreement."+dm.limit, "protobuf-envelope", dm.limit,
+		pair("LedgerChannelProposalMsg.funding_agreement."+dm.limit, "protobuf-envelope", bsite,
 			func() ([]byte, int, error) {
 				r, err := encodeEnv(cat.Protobuf, proposalWith(init.real(), dm.at.realBalances(), realPeers(2)))
 				return r, 2, err
@@ -569,7 +572,7 @@ func limitCases() []limitCase {
 	// big integers on their own
 	for _, n := range []int{limBigInt + 1, 255} {
 		n := n
-		pair(fmt.Sprintf("BigInt.bytes-%d", n), "value:perunio.BigInt", "integer-bytes",
+		pair(fmt.Sprintf("BigInt.bytes-%d", n), "value:perunio.BigInt", "BigInt.integer-bytes",
 			func() ([]byte, int, error) {
 				r, err := encodeNative(perunio.BigInt{Int: new(big.Int).SetBytes(intBytes(limBigInt))})
 				if err == nil && !bytes.Equal(r, hand(func(e *enc) { e.bigint(intBytes(limBigInt)) })) {
@@ -582,7 +585,7 @@ func limitCases() []limitCase {
 
 	// sub-allocation value: number of balances (one per asset)
 	sd := allocDim{}
-	pair("SubAlloc.bals", "value:channel.SubAlloc", "assets",
+	pair("SubAlloc.bals", "value:channel.SubAlloc", "SubAlloc.assets",
 		func() ([]byte, int, error) {
 			r, err := encodeNative(*sd.realSub(0, limAssets))
 			if err == nil && !bytes.Equal(r, hand(func(e *enc) { sd.handSub(e, 0, limAssets) })) {
@@ -598,7 +601,7 @@ func limitCases() []limitCase {
 		})
 	bd := allocDim{subBalLen: limBigInt}
 	bo := allocDim{subBalLen: limBigInt + 1}
-	pair("SubAlloc.balance-bytes", "value:channel.SubAlloc", "balance-bytes",
+	pair("SubAlloc.balance-bytes", "value:channel.SubAlloc", "SubAlloc.balance-bytes",
 		func() ([]byte, int, error) { r, err := encodeNative(*bd.realSub(0, 2)); return r, 34, err },
 		func() ([]byte, int, error) { return hand(func(e *enc) { bo.handSub(e, 0, 2) }), 34, nil })
 
@@ -629,14 +632,14 @@ func limitCases() []limitCase {
 			return encodeEnv(s, fundingWith(p, stateWith(allocDim{assets: 1, parts: 2}.real())))
 		}
 	}
-	pair("Params.parts", "value:channel.Params", "participants",
+	pair("Params.parts", "value:channel.Params", "Params.participants",
 		func() ([]byte, int, error) { return paramsNative(limParts, true, valueWrap) },
 		func() ([]byte, int, error) { return paramsNative(limParts+1, false, valueWrap) })
-	pair("VirtualChannelFundingProposalMsg.initial.params.parts", "native-envelope", "participants",
+	pair("VirtualChannelFundingProposalMsg.initial.params.parts", "native-envelope", "Params.participants",
 		func() ([]byte, int, error) { return paramsNative(limParts, true, fundWrap(cat.Native)) },
 		func() ([]byte, int, error) { return paramsNative(limParts+1, false, fundWrap(cat.Native)) })
 	// the nonce: the real encoders do not check its length
-	pair("Params.nonce", "value:channel.Params", "nonce-bytes",
+	pair("Params.nonce", "value:channel.Params", "Params.nonce-bytes",
 		func() ([]byte, int, error) { r, err := encodeNative(paramsWith(realParts(2), limNonce)); return r, 8, err },
 		func() ([]byte, int, error) { r, err := encodeNative(paramsWith(realParts(2), limNonce+1)); return r, 8, err })
 	for _, s := range cat.Sers {
@@ -645,13 +648,13 @@ func limitCases() []limitCase {
 		if s == cat.Protobuf {
 			off = 2
 		}
-		pair("VirtualChannelFundingProposalMsg.initial.params.nonce", s.String()+"-envelope", "nonce-bytes",
+		pair("VirtualChannelFundingProposalMsg.initial.params.nonce", s.String()+"-envelope", "Params.nonce-bytes",
 			func() ([]byte, int, error) { r, err := fundWrap(s)(paramsWith(realParts(2), limNonce)); return r, off, err },
 			func() ([]byte, int, error) { r, err := fundWrap(s)(paramsWith(realParts(2), limNonce+1)); return r, off, err })
 	}
 	// protobuf: 1025 full participants do not fit a 64 KiB frame; 1025 participants without
 	// address do (no positive control: the real encoder cannot express 1024 either)
-	add("VirtualChannelFundingProposalMsg.initial.params.parts(no-address)", "@limit+1", "protobuf-envelope", "participants", "reject",
+	add("VirtualChannelFundingProposalMsg.initial.params.parts(no-address)", "@limit+1", "protobuf-envelope", "Params.participants", "reject",
 		func() ([]byte, int, error) {
 			at, err := fundWrap(cat.Protobuf)(paramsWith(realParts(2), limNonce))
 			if err != nil {
@@ -673,7 +676,7 @@ func limitCases() []limitCase {
 	smallPeers := hand(func(e *enc) { handPeers(e, 2) })
 	init := allocDim{assets: 1, parts: 2}
 	fa := channel.Balances{{big.NewInt(7), big.NewInt(9)}}
-	pair("LedgerChannelProposalMsg.peers", "native-envelope", "participants",
+	pair("LedgerChannelProposalMsg.peers", "native-envelope", "LedgerChannelProposalMsg.peers",
 		func() ([]byte, int, error) {
 			r, err := encodeEnv(cat.Native, proposalWith(init.real(), fa, realPeers(limParts)))
 			return r, 0, err
@@ -692,7 +695,7 @@ func limitCases() []limitCase {
 			}
 			return splice(small, smallPeers, hand(func(e *enc) { handPeers(e, limParts+1) }))
 		})
-	pair("LedgerChannelProposalMsg.peers", "protobuf-envelope", "participants",
+	pair("LedgerChannelProposalMsg.peers", "protobuf-envelope", "LedgerChannelProposalMsg.peers",
 		func() ([]byte, int, error) {
 			r, err := encodeEnv(cat.Protobuf, proposalWith(init.real(), fa, realPeers(limParts)))
 			return r, 2, err
